@@ -106,7 +106,19 @@ def containment(ctx):
         cpcfg = CFG(cp.node, m, cp.module)
         flag = cp.node.args.args[2].arg if len(cp.node.args.args) > 2 else 'raise_com_failed'
         asked = sides_with_fact(cpcfg, lambda a, tv: tv and isinstance(a, ast.Name) and a.id == flag)
-        comfail = sides_with_fact(cpcfg, lambda a, tv: tv and isinstance(a, ast.Call) and dotted(a.func) == 'isinstance' and 'CommunicationFailedError' in src(a))
+        def is_comfail(a, tv):
+            if not tv:
+                return False
+            if isinstance(a, ast.Call) and dotted(a.func) == 'isinstance' and 'CommunicationFailedError' in src(a):
+                return True
+            if isinstance(a, ast.Name):
+                # a flag that is true only where the isinstance test was: every binding is `False` or that test
+                defs = [v for v, st, how in local_assigns(cp.node, a.id)]
+                return bool(defs) and any(v is not None and isinstance(v, ast.Call) for v in defs) and all(
+                    v is not None and ((isinstance(v, ast.Constant) and v.value is False) or
+                                       (isinstance(v, ast.Call) and dotted(v.func) == 'isinstance' and 'CommunicationFailedError' in src(v))) for v in defs)
+            return False
+        comfail = sides_with_fact(cpcfg, is_comfail)
         # the firewall is total: what a handler for ANY exception does with the caught object works for any exception - attributes
         # only SECoP errors have (report_error, silent, raising_methods, format ...) are read with a getattr default or where an
         # isinstance test established the class; otherwise the handler itself raises AttributeError and the poll thread ends
